@@ -25,6 +25,8 @@ def run(tier: str) -> Report:
     ncases, max_points = QUICK if tier == 'quick' else THOROUGH
     jobs = [(PROP, i, PARTS, max_points) for i in range(ncases)]
     # a second family: imports from another container with small pack targets and cache budgets that force several flushes
+    jobs += [(PROP, i, PARTS, max_points, 'read') for i in range(8 if tier == 'quick' else ncases // 4)]
+    jobs += [(PROP, i, PARTS, max_points, 'noholes') for i in range(8 if tier == 'quick' else ncases // 4)]
     jobs += [(PROP, i, PARTS, max_points, 'packall') for i in range(6 if tier == 'quick' else ncases // 4)]
     jobs += [(PROP, i, PARTS, max_points, 'import') for i in range(10 if tier == 'quick' else ncases // 3)]
     ctx = mp.get_context('fork')
